@@ -99,4 +99,43 @@ Proof.
   rewrite (ew_add w), <- Em, (ew_add w), (ew_neg w).
   destruct (bit_cases p Hp _ Hc) as [C0|C1]; [right|left]; (split; [assumption|]); [rewrite C0|rewrite C1]; apply eq_feq; ring.
 Qed.
+(* the remaining comparisons and true division through the dispatch *)
+Theorem op_gt_forced x y r s' cs vx vy : run (pyop c OGt (PLC x) (PLC y)) s = (inl r, s', cs) -> sat cs ->
+  2 ^ (n + 1) <= p -> ew x == vx -> ew y == vy -> - 2 ^ n <= vx - vy - 1 < 2 ^ n -> isb (fun b => b == (if vy <? vx then 1 else 0)) r.
+Proof.
+  intros R H Hk Ex Ey Rg.
+  apply (wps_sound w _ _ (pyop c OGt (PLC x) (PLC y)) s (fun r _ => isb (fun b => b == (if vy <? vx then 1 else 0)) r)) with (s' := s') (cs := cs); auto.
+  disp. apply wps_bind. unfold boolr. apply wps_bind. apply (check_positive_s Hp w W0); [exact G|]. intros b s1 _ K. cbn [ret wps bind isb].
+  assert (Dv : ew (addc (add x (neg y)) (- (1))) == vx - vy - 1) by (rewrite (ew_addc w W0), (ew_add w), (ew_neg w), Ex, Ey; apply eq_feq; ring).
+  pose proof (sign_of' _ _ (vx - vy - 1) Hk Rg Dv K) as K'.
+  replace (if vy <? vx then 1 else 0) with (if 0 <=? vx - vy - 1 then 1 else 0); [exact K'|].
+  destruct (Z.leb_spec 0 (vx - vy - 1)), (Z.ltb_spec vy vx); try reflexivity; lia.
+Qed.
+Theorem op_ge_forced x y r s' cs vx vy : run (pyop c OGe (PLC x) (PLC y)) s = (inl r, s', cs) -> sat cs ->
+  2 ^ (n + 1) <= p -> ew x == vx -> ew y == vy -> - 2 ^ n <= vx - vy < 2 ^ n -> isb (fun b => b == (if vy <=? vx then 1 else 0)) r.
+Proof.
+  intros R H Hk Ex Ey Rg.
+  apply (wps_sound w _ _ (pyop c OGe (PLC x) (PLC y)) s (fun r _ => isb (fun b => b == (if vy <=? vx then 1 else 0)) r)) with (s' := s') (cs := cs); auto.
+  disp. apply wps_bind. unfold boolr. apply wps_bind. apply (check_positive_s Hp w W0); [exact G|]. intros b s1 _ K. cbn [ret wps bind isb].
+  assert (Dv : ew (add x (neg y)) == vx - vy) by (rewrite (ew_add w), (ew_neg w), Ex, Ey; apply eq_feq; ring).
+  pose proof (sign_of' _ _ (vx - vy) Hk Rg Dv K) as K'.
+  replace (if vy <=? vx then 1 else 0) with (if 0 <=? vx - vy then 1 else 0); [exact K'|].
+  destruct (Z.leb_spec 0 (vx - vy)), (Z.leb_spec vy vx); try reflexivity; lia.
+Qed.
+Theorem op_ne_forced x y r s' cs : run (pyop c ONe (PLC x) (PLC y)) s = (inl r, s', cs) -> sat cs ->
+  isb (fun b => (ew x == ew y -> b == 0) /\ (~ ew x == ew y -> b == 1)) r.
+Proof.
+  intros R H.
+  apply (wps_sound w _ _ (pyop c ONe (PLC x) (PLC y)) s (fun r _ => isb (fun b => (ew x == ew y -> b == 0) /\ (~ ew x == ew y -> b == 1)) r)) with (s' := s') (cs := cs); auto.
+  disp. apply wps_bind. apply wps_bind. apply (check_zero_s Hp w W0). intros b s1 _ [A B]. cbn [ret wps bind isb].
+  rewrite (ew_add w), (ew_neg w) in A, B. unfold bnot. rewrite (ew_rsubc w W0). split; intros E.
+  - rewrite A; [apply eq_feq; ring|]. rewrite E. apply eq_feq. ring.
+  - rewrite B; [apply eq_feq; ring|]. intros Z0. apply E. transitivity (ew x + - ew y + ew y); [apply eq_feq; ring|]. rewrite Z0. apply eq_feq. ring.
+Qed.
+Theorem op_truediv_forced x y r s' cs : run (pyop c OTrueDiv (PLC x) (PLC y)) s = (inl r, s', cs) -> sat cs -> islc (fun v => ew y * v == ew x) r.
+Proof.
+  intros R H.
+  apply (wps_sound w _ _ (pyop c OTrueDiv (PLC x) (PLC y)) s (fun r _ => islc (fun v => ew y * v == ew x) r)) with (s' := s') (cs := cs); auto.
+  disp. apply wps_bind. unfold lcr. apply wps_bind. apply (truediv_s w); [exact G|]. intros q s1 _ E. cbn [ret wps bind islc]. exact E.
+Qed.
 End AO.
